@@ -37,130 +37,7 @@ def run_all(ctx, touched=None):
     return out
 
 
-def renamed_source(src: str, fnode: ast.AST) -> str | None:
-    """src with the locals of fnode renamed; None when it has none to rename."""
-    params, excl = set(), set()
-    for n in ast.walk(fnode):
-        if isinstance(n, ast.arg):
-            (params if n in _own_args(fnode) else excl).add(n.arg)
-        elif isinstance(n, (ast.Global, ast.Nonlocal)):
-            excl |= set(n.names)
-        elif isinstance(n, ast.ExceptHandler) and n.name:
-            excl.add(n.name)
-        elif isinstance(n, (ast.MatchAs, ast.MatchStar)) and n.name:
-            excl.add(n.name)
-        elif isinstance(n, ast.MatchMapping) and n.rest:
-            excl.add(n.rest)
-        elif isinstance(n, (ast.FunctionDef, ast.AsyncFunctionDef, ast.ClassDef)) and n is not fnode:
-            excl.add(n.name)
-        elif isinstance(n, (ast.Import, ast.ImportFrom)):
-            excl |= {(a.asname or a.name).split(".")[0] for a in n.names}
-    stored = {n.id for n in ast.walk(fnode) if isinstance(n, ast.Name) and isinstance(n.ctx, (ast.Store, ast.Del))}
-    names = stored - params - excl
-    if not names:
-        return None
-    lines = src.splitlines(keepends=True)
-    edits = []
-    for n in ast.walk(fnode):
-        if isinstance(n, ast.Name) and n.id in names:
-            edits.append((n.lineno, n.col_offset, n.end_col_offset, n.id))
-    # ast columns are utf-8 byte offsets
-    by_line = {}
-    for ln, c0, c1, name in edits:
-        by_line.setdefault(ln, []).append((c0, c1, name))
-    for ln, es in by_line.items():
-        b = lines[ln - 1].encode()
-        for c0, c1, name in sorted(set(es), reverse=True):
-            if b[c0:c1].decode() != name:
-                return None  # f-string positions etc.: skip this function rather than guess
-            b = b[:c0] + (name + "_rn").encode() + b[c1:]
-        lines[ln - 1] = b.decode()
-    return "".join(lines)
-
-
-FLIP = {ast.Lt: ast.Gt, ast.Gt: ast.Lt, ast.LtE: ast.GtE, ast.GtE: ast.LtE, ast.Eq: ast.Eq, ast.NotEq: ast.NotEq}
-
-
-def flipped_source(src: str, fnode: ast.AST) -> str | None:
-    """src with every two-operand comparison of fnode written the other way
-    round (`a < b` -> `b > a`, `a == b` -> `b == a`): the same predicate."""
-    mod = ast.parse(src)
-    target = None
-    for n in ast.walk(mod):
-        if isinstance(n, type(fnode)) and n.lineno == fnode.lineno and n.name == fnode.name:
-            target = n
-    if target is None:
-        return None
-    changed = False
-
-    class T(ast.NodeTransformer):
-        def visit_Compare(self, n: ast.Compare):
-            nonlocal changed
-            self.generic_visit(n)
-            if len(n.ops) == 1 and type(n.ops[0]) in FLIP and not isinstance(n.left, ast.Constant) or \
-                    (len(n.ops) == 1 and type(n.ops[0]) in FLIP and not isinstance(n.comparators[0], ast.Constant)):
-                changed = True
-                return ast.Compare(left=n.comparators[0], ops=[FLIP[type(n.ops[0])]()], comparators=[n.left])
-            return n
-
-    T().visit(target)
-    if not changed:
-        return None
-    ast.fix_missing_locations(target)
-    text = ast.unparse(target)
-    first = min([target.lineno] + [d.lineno for d in target.decorator_list])
-    indent = " " * target.col_offset
-    lines = src.splitlines(keepends=True)
-    new = "".join(indent + l + "\n" for l in text.splitlines())
-    return "".join(lines[: first - 1]) + new + "".join(lines[target.end_lineno:])
-
-
-def named_cond_source(src: str, fnode: ast.AST) -> str | None:
-    """src with every refusing `if <comparison>: ... raise` of fnode rewritten as
-    `cond_k = <comparison>` / `if cond_k: ...`: the same refusal behind a name."""
-    mod = ast.parse(src)
-    target = None
-    for n in ast.walk(mod):
-        if isinstance(n, type(fnode)) and n.lineno == fnode.lineno and n.name == fnode.name:
-            target = n
-    if target is None:
-        return None
-    k = 0
-
-    def rewrite(body: list[ast.stmt]) -> list[ast.stmt]:
-        nonlocal k
-        out = []
-        for st in body:
-            for f in ("body", "orelse", "finalbody"):
-                if hasattr(st, f) and isinstance(getattr(st, f), list) and not isinstance(st, (ast.FunctionDef, ast.AsyncFunctionDef, ast.ClassDef)):
-                    setattr(st, f, rewrite(getattr(st, f)))
-            if isinstance(st, ast.Try):
-                for h in st.handlers:
-                    h.body = rewrite(h.body)
-            if isinstance(st, ast.If) and isinstance(st.test, ast.Compare) and not st.orelse and st.body and isinstance(st.body[-1], ast.Raise) \
-                    and not any(isinstance(x, ast.NamedExpr) for x in ast.walk(st.test)):
-                k += 1
-                name = f"cond_{k}"
-                out.append(ast.Assign(targets=[ast.Name(id=name, ctx=ast.Store())], value=st.test, lineno=st.lineno))
-                st.test = ast.Name(id=name, ctx=ast.Load())
-            out.append(st)
-        return out
-
-    target.body = rewrite(target.body)
-    if not k:
-        return None
-    ast.fix_missing_locations(target)
-    text = ast.unparse(target)
-    first = min([target.lineno] + [d.lineno for d in target.decorator_list])
-    indent = " " * target.col_offset
-    lines = src.splitlines(keepends=True)
-    new = "".join(indent + l + "\n" for l in text.splitlines())
-    return "".join(lines[: first - 1]) + new + "".join(lines[target.end_lineno:])
-
-
-def _own_args(fnode):
-    a = fnode.args
-    return set(a.posonlyargs + a.args + a.kwonlyargs + ([a.vararg] if a.vararg else []) + ([a.kwarg] if a.kwarg else []))
+from sa.variants import flipped_source, named_cond_source, renamed_source  # noqa: E402
 
 
 _BASE = None
